@@ -1,3 +1,33 @@
 claim("C05", "dsim", "exploration",
       "Seeded search over DML histories (INSERT single/multi-row, UPDATE, DELETE, TRUNCATE, SELECT, COUNT(*)) over swarm-generated schemas, executed against the real Database; every statement's Ok/Err, affected-row count and RETURNING rows and, after every write, the full observation set (scan, COUNT(*), indexed lookups) are compared with a relational reference model. Exploration is the honest level: histories are sampled, not enumerated.",
       DSIM_NOTE, "deterministic simulation: op-by-op refinement against a relational reference model (fault-free profile)", "DESIGN.md §6 C05")
+claim("C04", "dsim", "exploration",
+      "Seeded histories with lifecycle events (Database::checkpoint, PRAGMA wal_checkpoint, automatic checkpoint via a small threshold, close()+open, drop+open) inserted at seeded operation boundaries, WAL on and off: the observation set Q (scan, COUNT(*), indexed lookups) after each event must equal the reference model's unchanged state, and a twin run of the same history without the events must produce an identical transcript for every later statement (covers AUTO_INCREMENT counters and write behaviour after reopen).",
+      DSIM_NOTE, "deterministic simulation: lifecycle events at seeded points, model comparison + no-lifecycle twin differential", "DESIGN.md §6 C04")
+claim("C06", "dsim", "exploration",
+      "Seeded histories in which a share of the statements is aimed at failing (k-th row of a multi-row INSERT violates PK/UNIQUE/NOT NULL/CHECK/FK, colliding or constraint-violating UPDATEs, type errors) in autocommit and inside transactions; whenever the engine returns an error the observation set must equal the model's unchanged state. The injected-I/O-error variant (armed EIO/ENOSPC/EMFILE inside a statement through simdisk) is part of the same profile.",
+      DSIM_NOTE, "deterministic simulation: failing statements (semantic and injected I/O faults) must leave the observation set unchanged", "DESIGN.md §6 C06")
+claim("C07", "dsim", "exploration",
+      "Seeded transaction histories with nested savepoints, RELEASE, ROLLBACK TO, ROLLBACK and close/drop of the handle with an open transaction; the model snapshots at BEGIN and every SAVEPOINT; after each rollback the observation set (rows, COUNT(*), index lookups) must equal the snapshot, and later writes must behave as in the snapshot (the run continues against the restored model).",
+      DSIM_NOTE, "deterministic simulation: model snapshots at BEGIN/SAVEPOINT vs observation set after ROLLBACK [TO] / handle drop", "DESIGN.md §6 C07")
+claim("C09", "dsim", "exploration",
+      "Seeded histories over schemas rich in PRIMARY KEY / UNIQUE / NOT NULL / CHECK / FOREIGN KEY (RESTRICT, CASCADE) declarations; the model accepts a write iff the resulting state satisfies every declared constraint, and both directions are checked statement by statement: a write the model rejects must fail, a write it accepts must succeed.",
+      DSIM_NOTE, "deterministic simulation: accept/reject of every write decided by a reference model of the declared constraints", "DESIGN.md §6 C09")
+claim("C10", "dsim", "exploration",
+      "Index-heavy seeded histories (CREATE/DROP INDEX as events, ascending/descending/random insert orders, updates of indexed columns, deletes, rollbacks): every point/range/IN lookup on an indexed column is compared with the model and with the engine's own full scan, and an index-free twin database receives the same DML and must give the same transcript.",
+      DSIM_NOTE, "deterministic simulation: indexed lookups vs full scan vs model, plus index-free twin differential", "DESIGN.md §6 C10")
+claim("C11", "dsim", "exploration",
+      "PARTIAL (state/persistence dimension only): boundary-biased values per type (extreme integers, multi-kilobyte TEXT/BLOB through TOAST, UTF-8-valid blobs, floats) written by literal, bound-parameter and prepared paths must read back unchanged after later updates, deletes of neighbours, checkpoint, close/reopen. The quantifier 'all values of every type' itself is input-space exploration and outside this family.",
+      DSIM_NOTE, "deterministic simulation: value fidelity through TOAST / update / lifecycle events against the model", "DESIGN.md §6 C11")
+claim("C12", "dsim", "exploration",
+      "Invariant monitor over every generated AUTO_INCREMENT id observed through RETURNING in seeded histories with explicit ids, deletes, rollbacks (full and to savepoint) and reopen cycles: strictly greater than every id previously generated or held for the table, never reused.",
+      DSIM_NOTE, "deterministic simulation: monotonic / never-reused invariant over observed generated ids", "DESIGN.md §6 C12")
+claim("C21", "dsim", "exploration",
+      "Seeded interleavings of CREATE/DROP TABLE, CREATE/DROP INDEX, ALTER TABLE ADD/DROP/RENAME COLUMN and TRUNCATE with DML and with close/drop+reopen events, compared with the model's schema semantics after every step (added columns read as default or NULL, other columns intact, effects survive reopening).",
+      DSIM_NOTE, "deterministic simulation: DDL interleaved with DML and reopen vs relational model", "DESIGN.md §6 C21")
+claim("C42", "dsim", "exploration",
+      "One seeded history is executed under 4 configurations sampled from {wal on/off} x {synchronous OFF/NORMAL/FULL} x {autoflush on/off} x {checkpoint threshold 2/50/default}, some histories with more than 22 tables and indexes so that more than 64 files are open; all transcripts (results, affected counts, error/ok, observation sets) must be identical and equal to the model's.",
+      DSIM_NOTE, "deterministic simulation: configuration twins of one history must produce identical transcripts", "DESIGN.md §6 C42")
+claim("C43", "dsim", "exploration",
+      "Seeded histories in which row batches are loaded through insert_batch, bulk_insert and a re-executed prepared INSERT (insert_cached) interleaved with ordinary DML; the model applies the same rows with row-at-a-time INSERT semantics, and the observation set (scan, COUNT(*), index lookups), later constraint outcomes and generated ids must agree.",
+      DSIM_NOTE, "deterministic simulation: bulk-load APIs vs row-at-a-time INSERT semantics of the reference model", "DESIGN.md §6 C43")
